@@ -180,6 +180,17 @@ func Not(exprs ...Expression) Expression {
 	return NotConditions{Exprs: exprs}
 }
 
+// rawSQLOf returns the SQL of a raw (positional or named) expression
+func rawSQLOf(c Expression) (string, bool) {
+	switch v := c.(type) {
+	case Expr:
+		return v.SQL, true
+	case NamedExpr:
+		return v.SQL, true
+	}
+	return "", false
+}
+
 type NotConditions struct {
 	Exprs []Expression
 }
@@ -207,9 +218,9 @@ func (not NotConditions) Build(builder Builder) {
 				negationBuilder.NegationBuild(builder)
 			} else {
 				builder.WriteString("NOT ")
-				e, wrapInParentheses := c.(Expr)
+				rawSQL, wrapInParentheses := rawSQLOf(c)
 				if wrapInParentheses {
-					sql := strings.ToUpper(e.SQL)
+					sql := strings.ToUpper(rawSQL)
 					if wrapInParentheses = containsAndOr(sql); wrapInParentheses {
 						builder.WriteByte('(')
 					}
@@ -242,9 +253,9 @@ func (not NotConditions) Build(builder Builder) {
 				}
 			}
 
-			e, wrapInParentheses := c.(Expr)
+			rawSQL, wrapInParentheses := rawSQLOf(c)
 			if wrapInParentheses {
-				sql := strings.ToUpper(e.SQL)
+				sql := strings.ToUpper(rawSQL)
 				if wrapInParentheses = containsAndOr(sql); wrapInParentheses {
 					builder.WriteByte('(')
 				}
